@@ -13,6 +13,8 @@
 //	    the real engine with mock gun/provider (ammo never runs out) and a REAL composite rps schedule of
 //	    nparts alternating once(k) / unlimited(1ms) parts (shared by the instances unless perinst):
 //	    the instances reach every part boundary together. Observation = ok | err:<engine error> | hang
+//	shs <spec> <mode> <trials> <take>  /  shse <ninst> <runs> <k> <dur_ms>      (see shared.go: one shared schedule
+//	    started by the first Next of one instance while the others evaluate their loop condition)
 //	agrpc <ninst> <timeout_ms> <order> <users> <calls> <scenarios>      (same fields as hC20 scen)
 //	    sequential aliasing differential through the real grpc/scenario provider + guns; observation =
 //	    what the target received per shot  +  " post "  +  the shared definition read back afterwards
@@ -344,6 +346,10 @@ func runCase(c string) (res string) {
 		return runSched(f)
 	case "ammo":
 		return runAmmo(f)
+	case "shs":
+		return runShs(f)
+	case "shse":
+		return runShse(f)
 	case "agrpc":
 		return runAliasGRPC(f)
 	case "ahttp":
